@@ -6,6 +6,7 @@ import EduceModel.Props.C04
 import EduceModel.Props.C05
 import EduceModel.Props.C06
 import EduceModel.Props.C07
+import EduceModel.Props.C08
 import EduceModel.Props.C09
 import EduceModel.Props.C10
 import EduceModel.Props.C11
@@ -2177,6 +2178,540 @@ theorem into_handler_end_to_end (c : Ctx) (m0 : TraitMeta) (rest : List TraitMet
   · rename_i heq
     exact absurd heq hk
   · exact fin _ rfl h
+
+/-! ## C08 — Default, end to end (structs and enums)
+
+### generic facts about the attribute scan and the parameter loop -/
+
+/-- A scan that accepts with one builder accepts, with the same result, with any builder that accepts at least as much. -/
+theorem scanMetas_builder_imp {α : Type} (F : Features) (tr mine : TraitId → Bool) (b1 b2 : TraitMeta → Res α)
+    (himp : ∀ m a, b1 m = .ok a → b2 m = .ok a) :
+    ∀ (ms : List TraitMeta) (out o : Option α), scanMetas F tr mine b1 ms out = .ok o → scanMetas F tr mine b2 ms out = .ok o := by
+  intro ms
+  induction ms with
+  | nil => intro out o h; exact h
+  | cons m ms ih =>
+    intro out o h
+    simp only [scanMetas] at h ⊢
+    cases ht : traitOf F m with
+    | none => simp [ht] at h
+    | some t =>
+      simp only [ht] at h ⊢
+      by_cases h1 : (!tr t) = true
+      · rw [if_pos h1] at h; exact absurd ⟨_, h⟩ (not_ok_identOrPanic _ _)
+      · rw [if_neg h1] at h ⊢
+        by_cases h2 : mine t = true
+        · rw [if_pos h2] at h ⊢
+          cases out with
+          | some x => exact absurd ⟨_, h⟩ (not_ok_identOrPanic _ _)
+          | none =>
+            simp only at h ⊢
+            cases hb : b1 m with
+            | diag e => simp [hb] at h
+            | panic s => simp [hb] at h
+            | ok a =>
+              simp only [hb] at h
+              rw [himp m a hb]
+              exact ih _ _ h
+        · rw [if_neg h2] at h ⊢
+          exact ih _ _ h
+
+theorem scanAttrs_builder_imp {α : Type} (F : Features) (tr mine : TraitId → Bool) (b1 b2 : TraitMeta → Res α)
+    (himp : ∀ m a, b1 m = .ok a → b2 m = .ok a) :
+    ∀ (as : List Attribute) (out o : Option α), scanAttrs F tr mine b1 as out = .ok o → scanAttrs F tr mine b2 as out = .ok o := by
+  intro as
+  induction as with
+  | nil => intro out o h; exact h
+  | cons a as ih =>
+    intro out o h
+    simp only [scanAttrs] at h ⊢
+    by_cases h1 : (a.isEduce && a.isList) = true
+    · rw [if_pos h1] at h ⊢
+      cases hm : a.metas with
+      | none => simp [hm] at h
+      | some ms =>
+        simp only [hm] at h ⊢
+        cases hs : scanMetas F tr mine b1 ms out with
+        | diag e => simp [hs] at h
+        | panic s => simp [hs] at h
+        | ok o1 =>
+          simp only [hs] at h
+          rw [scanMetas_builder_imp F tr mine b1 b2 himp ms out o1 hs]
+          exact ih _ _ h
+    · rw [if_neg h1] at h ⊢
+      exact ih _ _ h
+
+theorem fromAttrs_builder_imp {α : Type} (F : Features) (tr mine : TraitId → Bool) (b1 b2 : TraitMeta → Res α)
+    (himp : ∀ m a, b1 m = .ok a → b2 m = .ok a) (dflt : α) (attrs : List Attribute) (a : α)
+    (h : fromAttrs F tr mine b1 dflt attrs = .ok a) : fromAttrs F tr mine b2 dflt attrs = .ok a := by
+  unfold fromAttrs at h ⊢
+  cases hs : scanAttrs F tr mine b1 attrs none with
+  | diag e => simp [hs] at h
+  | panic s => simp [hs] at h
+  | ok o =>
+    rw [scanAttrs_builder_imp F tr mine b1 b2 himp attrs none o hs]
+    simpa [hs] using h
+
+/-- What a scan returns is what was there before, or the result of the builder on one of the metas. -/
+theorem scanMetas_ok_cases {α : Type} (F : Features) (tr mine : TraitId → Bool) (b : TraitMeta → Res α) :
+    ∀ (ms : List TraitMeta) (out o : Option α), scanMetas F tr mine b ms out = .ok o →
+      o = out ∨ ∃ m a, b m = .ok a ∧ o = some a := by
+  intro ms
+  induction ms with
+  | nil => intro out o h; simp only [scanMetas] at h; cases h; exact Or.inl rfl
+  | cons m ms ih =>
+    intro out o h
+    simp only [scanMetas] at h
+    cases ht : traitOf F m with
+    | none => simp [ht] at h
+    | some t =>
+      simp only [ht] at h
+      split at h
+      · exact absurd ⟨_, h⟩ (not_ok_identOrPanic _ _)
+      · split at h
+        · cases out with
+          | some x => exact absurd ⟨_, h⟩ (not_ok_identOrPanic _ _)
+          | none =>
+            simp only at h
+            cases hb : b m with
+            | diag e => simp [hb] at h
+            | panic s => simp [hb] at h
+            | ok a =>
+              simp only [hb] at h
+              rcases ih _ _ h with e | ⟨m', a', h1, h2⟩
+              · exact Or.inr ⟨m, a, hb, e⟩
+              · exact Or.inr ⟨m', a', h1, h2⟩
+        · exact ih _ _ h
+
+theorem scanAttrs_ok_cases {α : Type} (F : Features) (tr mine : TraitId → Bool) (b : TraitMeta → Res α) :
+    ∀ (as : List Attribute) (out o : Option α), scanAttrs F tr mine b as out = .ok o →
+      o = out ∨ ∃ m a, b m = .ok a ∧ o = some a := by
+  intro as
+  induction as with
+  | nil => intro out o h; simp only [scanAttrs] at h; cases h; exact Or.inl rfl
+  | cons a as ih =>
+    intro out o h
+    simp only [scanAttrs] at h
+    split at h
+    · cases hm : a.metas with
+      | none => simp [hm] at h
+      | some ms =>
+        simp only [hm] at h
+        cases hs : scanMetas F tr mine b ms out with
+        | diag e => simp [hs] at h
+        | panic s => simp [hs] at h
+        | ok o1 =>
+          simp only [hs] at h
+          rcases ih _ _ h with e | r
+          · rcases scanMetas_ok_cases F tr mine b ms out o1 hs with e1 | r1
+            · exact Or.inl (e.trans e1)
+            · obtain ⟨m', a', h1, h2⟩ := r1
+              exact Or.inr ⟨m', a', h1, e.trans h2⟩
+          · exact Or.inr r
+    · exact ih _ _ h
+
+/-- The result of reading a position's attributes is the default, or what the builder made of one of the metas. -/
+theorem fromAttrs_ok_cases {α : Type} (F : Features) (tr mine : TraitId → Bool) (b : TraitMeta → Res α) (dflt : α)
+    (attrs : List Attribute) (a : α) (h : fromAttrs F tr mine b dflt attrs = .ok a) : a = dflt ∨ ∃ m, b m = .ok a := by
+  unfold fromAttrs at h
+  cases hs : scanAttrs F tr mine b attrs none with
+  | diag e => simp [hs] at h
+  | panic s => simp [hs] at h
+  | ok o =>
+    simp only [hs] at h
+    rcases scanAttrs_ok_cases F tr mine b attrs none o hs with e | ⟨m, a', h1, h2⟩
+    · subst e; simp at h; exact Or.inl h.symm
+    · subst h2; simp at h; subst h; exact Or.inr ⟨m, h1⟩
+
+/-- A parameter list is accepted under switches that are all off only when it is empty. -/
+theorem runParams_all_disabled {σ : Type} (m : TraitMeta) (specs : List (PSpec σ)) (hoff : ∀ s ∈ specs, s.enabled = false) :
+    ∀ (ps : List Param) (seen : List String) (st st' : σ), runParams m specs ps seen st = .ok st' → ps = [] ∧ st' = st := by
+  intro ps seen st st' h
+  cases ps with
+  | nil => simp only [runParams] at h; cases h; exact ⟨rfl, rfl⟩
+  | cons p ps =>
+    exfalso
+    simp only [runParams] at h
+    cases hi : p.ident with
+    | none => simp only [hi] at h; exact absurd ⟨_, h⟩ (not_ok_identOrPanic _ _)
+    | some n =>
+      simp only [hi] at h
+      cases hf : findSpec specs n with
+      | none => simp only [hf] at h; exact absurd ⟨_, h⟩ (not_ok_identOrPanic _ _)
+      | some s =>
+        simp only [hf] at h
+        have hmem : s ∈ specs := List.mem_of_find?_eq_some hf
+        simp only [hoff s hmem, Bool.not_false, if_true] at h
+        exact absurd ⟨_, h⟩ (not_ok_identOrPanic _ _)
+
+/-- A property of the builder state that every parameter preserves holds of the result. -/
+theorem runParams_invariant {σ : Type} (P : σ → Prop) (m : TraitMeta) (specs : List (PSpec σ))
+    (hP : ∀ s ∈ specs, ∀ f st st', P st → s.apply f st = .ok st' → P st') :
+    ∀ (ps : List Param) (seen : List String) (st st' : σ), P st → runParams m specs ps seen st = .ok st' → P st' := by
+  intro ps
+  induction ps with
+  | nil => intro seen st st' hp h; simp only [runParams] at h; cases h; exact hp
+  | cons p ps ih =>
+    intro seen st st' hp h
+    simp only [runParams] at h
+    cases hi : p.ident with
+    | none => simp only [hi] at h; exact absurd ⟨_, h⟩ (not_ok_identOrPanic _ _)
+    | some n =>
+      simp only [hi] at h
+      cases hf : findSpec specs n with
+      | none => simp only [hf] at h; exact absurd ⟨_, h⟩ (not_ok_identOrPanic _ _)
+      | some s =>
+        simp only [hf] at h
+        have hmem : s ∈ specs := List.mem_of_find?_eq_some hf
+        split at h
+        · exact absurd ⟨_, h⟩ (not_ok_identOrPanic _ _)
+        · cases ha : s.apply p.form st with
+          | diag e => simp [ha] at h
+          | panic x => simp [ha] at h
+          | ok st1 =>
+            simp only [ha] at h
+            split at h
+            · cases h
+            · exact ih _ _ _ (hP s hmem _ _ _ hp ha) h
+
+/-! ### the Default builders under their switches -/
+
+theorem defFieldFromMeta_noflag (e : Bool) (ty : TyShape) (m : TraitMeta) (a : DefaultFieldAttr)
+    (h : defaultFieldFromMeta false e ty m = .ok a) : a.flag = false := by
+  unfold defaultFieldFromMeta at h
+  cases hf : m.form with
+  | path => simp only [hf] at h; exact absurd ⟨_, h⟩ (not_ok_identOrPanic _ _)
+  | nv v =>
+    simp only [hf] at h
+    split at h
+    · exact absurd ⟨_, h⟩ (not_ok_identOrPanic _ _)
+    · cases h; rfl
+  | list plain uns typed =>
+    simp only [hf] at h
+    cases plain with
+    | none => cases h
+    | some ps =>
+      simp only at h
+      refine runParams_invariant (fun st : DefaultFieldAttr => st.flag = false) m _ ?_ ps [] {} a rfl h
+      intro s hs f st st' hp ha
+      simp only [List.mem_singleton] at hs
+      subst hs
+      simp only at ha
+      obtain ⟨v, _, ha⟩ := bind_ok_inv ha
+      cases ha
+      exact hp
+
+/-- With marker and expression both switched off, the only Default attribute a field may carry is the empty list
+    `Default()`, which says nothing; reading the field with the expression switched on then finds nothing either. -/
+theorem defFieldFromMeta_off (ty : TyShape) (m : TraitMeta) (a : DefaultFieldAttr)
+    (h : defaultFieldFromMeta false false ty m = .ok a) : a = {} ∧ defaultFieldFromMeta false true ty m = .ok {} := by
+  unfold defaultFieldFromMeta at h ⊢
+  cases hf : m.form with
+  | path => simp only [hf] at h; exact absurd ⟨_, h⟩ (not_ok_identOrPanic _ _)
+  | nv v => simp only [hf] at h; exact absurd ⟨_, h⟩ (not_ok_identOrPanic _ _)
+  | list plain uns typed =>
+    simp only [hf] at h ⊢
+    cases plain with
+    | none => cases h
+    | some ps =>
+      simp only at h ⊢
+      obtain ⟨hps, ha⟩ := runParams_all_disabled m _ (by intro s hs; simp only [List.mem_singleton] at hs; subst hs; rfl) ps [] {} a h
+      subst hps
+      exact ⟨ha, rfl⟩
+
+theorem defFieldAttr_noflag (c : Ctx) (e : Bool) (f : Field) (a : DefaultFieldAttr) (h : defFieldAttr c false e f = .ok a) :
+    a.flag = false := by
+  rcases fromAttrs_ok_cases _ _ _ _ _ _ _ h with e1 | ⟨m, hm⟩
+  · rw [e1]
+  · exact defFieldFromMeta_noflag e f.shape m a hm
+
+theorem defFieldAttr_off (c : Ctx) (f : Field) (a : DefaultFieldAttr) (h : defFieldAttr c false false f = .ok a) :
+    a = {} ∧ defFieldAttr c false true f = .ok {} := by
+  have ha : a = {} := by
+    rcases fromAttrs_ok_cases _ _ _ _ _ _ _ h with e1 | ⟨m, hm⟩
+    · exact e1
+    · exact (defFieldFromMeta_off f.shape m a hm).1
+  subst ha
+  refine ⟨rfl, ?_⟩
+  exact fromAttrs_builder_imp _ _ _ _ _ (fun m a hm => by
+    obtain ⟨e1, e2⟩ := defFieldFromMeta_off f.shape m a hm
+    rw [e1]; exact e2) _ _ _ h
+
+/-- A field the handler found free of Default attributes contributes a plain field to the configuration. -/
+theorem defFieldOf_plain (c : Ctx) (enum : String × Bool → Nat) (f : Field) (a : DefaultFieldAttr)
+    (h : defFieldAttr c false false f = .ok a) : Gen.Default.hasAttr (defFieldOf c enum f) = false := by
+  simp [defFieldOf, (defFieldAttr_off c f a h).2, defField, Gen.Default.hasAttr]
+
+theorem defFieldOf_noflag (c : Ctx) (enum : String × Bool → Nat) (f : Field) : (defFieldOf c enum f).flag = false := by
+  unfold defFieldOf
+  cases h : defFieldAttr c false true f with
+  | ok a => simp [defField, defFieldAttr_noflag c true f a h]
+  | diag e => rfl
+  | panic s => rfl
+
+def offTypeFlags : DefaultTypeFlags := { flag := false, new := false, expression := false, bound := false }
+def flagTypeFlags : DefaultTypeFlags := { flag := true, new := false, expression := false, bound := false }
+
+theorem defTypeFromMeta_off (m : TraitMeta) (a : DefaultTypeAttr) (h : defaultTypeFromMeta offTypeFlags m = .ok a) :
+    a = {} ∧ defaultTypeFromMeta flagTypeFlags m = .ok {} := by
+  unfold defaultTypeFromMeta at h ⊢
+  cases hf : m.form with
+  | path => simp only [hf, offTypeFlags] at h; exact absurd ⟨_, h⟩ (not_ok_identOrPanic _ _)
+  | nv v => simp only [hf] at h; exact absurd ⟨_, h⟩ (not_ok_identOrPanic _ _)
+  | list plain uns typed =>
+    simp only [hf] at h ⊢
+    cases plain with
+    | none => cases h
+    | some ps =>
+      simp only at h ⊢
+      have hoff : ∀ s ∈ defaultTypeSpecs offTypeFlags, s.enabled = false := by
+        intro s hs
+        simp only [defaultTypeSpecs, boundSpec, offTypeFlags, List.mem_cons, List.mem_nil_iff, or_false] at hs
+        rcases hs with rfl | rfl | rfl <;> rfl
+      obtain ⟨hps, ha⟩ := runParams_all_disabled m _ hoff ps [] {} a h
+      subst hps
+      exact ⟨ha, rfl⟩
+
+theorem defVariantAttr_off (c : Ctx) (v : Variant) (a : DefaultTypeAttr) (h : defVariantAttr c false v = .ok a) :
+    defVariantAttr c true v = .ok {} := by
+  have ha : a = {} := by
+    rcases fromAttrs_ok_cases _ _ _ _ _ _ _ h with e1 | ⟨m, hm⟩
+    · exact e1
+    · exact (defTypeFromMeta_off m a hm).1
+  subst ha
+  exact fromAttrs_builder_imp _ _ _ _ _ (fun m a hm => by
+    obtain ⟨e1, e2⟩ := defTypeFromMeta_off m a hm
+    rw [e1]; exact e2) _ _ _ h
+
+/-! ### the handler's designation and the behavioural generator's -/
+
+/-- `fieldAttr` / `variantAttr` of `defaultHandler`, by name. -/
+def defFA (c : Ctx) (flag expr : Bool) (f : Field) : Res (Field × DefaultFieldAttr) := do
+  let a ← defFieldAttr c flag expr f
+  pure (f, a)
+
+theorem defFA_scan_off (c : Ctx) (enum : String × Bool → Nat) (fs : List Field) (r : List (Field × DefaultFieldAttr))
+    (h : mapRes (defFA c false false) fs = .ok r) : (fs.map (defFieldOf c enum)).any Gen.Default.hasAttr = false := by
+  have h2 := mapRes_ok_forall _ _ _ h
+  rw [List.any_eq_false]
+  intro x hx
+  obtain ⟨f, hf, rfl⟩ := List.mem_map.mp hx
+  obtain ⟨k, hk⟩ := List.getElem?_of_mem hf
+  have hl : k < r.length := by
+    rw [mapRes_length _ _ _ h]; exact (List.getElem?_eq_some_iff.mp hk).1
+  obtain ⟨f', hf', hxy⟩ := forall2_getElem h2 k _ (List.getElem?_eq_getElem hl)
+  rw [hk] at hf'; cases hf'
+  obtain ⟨a, ha, _⟩ := bind_ok_inv hxy
+  simp [defFieldOf_plain c enum f a ha]
+
+theorem defFields_noflag (c : Ctx) (enum : String × Bool → Nat) (fs : List Field) :
+    (fs.map (defFieldOf c enum)).any (·.flag) = false := by
+  rw [List.any_eq_false]
+  intro x hx
+  obtain ⟨f, _, rfl⟩ := List.mem_map.mp hx
+  simp [defFieldOf_noflag]
+
+/-- The handler's loop over the variants of an enum and the behavioural generator's `variantLoop`, run on the flags and
+    field attributes read from the same tokens, are the same loop. -/
+theorem defaultVariantLoop_variantLoop (c : Ctx) (enum : String × Bool → Nat) :
+    ∀ (vs : List Variant) (i : Nat) (acc r : Option (Nat × Variant)),
+      defaultVariantLoop (defFA c) (defVariantAttr c) i vs acc = .ok r →
+      Gen.Default.variantLoop i (vs.map (defVariantOf c enum)) (acc.map Prod.fst) = .ok (r.map Prod.fst) ∧
+      (∀ j v, r = some (j, v) → acc = some (j, v) ∨ (i ≤ j ∧ vs[j - i]? = some v)) := by
+  intro vs
+  induction vs with
+  | nil =>
+    intro i acc r h
+    simp only [defaultVariantLoop] at h
+    cases h
+    exact ⟨rfl, fun j v hr => Or.inl hr⟩
+  | cons v rest ih =>
+    intro i acc r h
+    simp only [defaultVariantLoop] at h
+    obtain ⟨va, hva, h⟩ := bind_ok_inv h
+    have hflag : (defVariantOf c enum v).flag = va.flag := by simp [defVariantOf, hva]
+    simp only [List.map_cons, Gen.Default.variantLoop, hflag]
+    cases hf : va.flag with
+    | true =>
+      simp only [hf, if_true] at h ⊢
+      cases acc with
+      | some a => cases h
+      | none =>
+        simp only at h
+        obtain ⟨h1, h2⟩ := ih (i + 1) (some (i, v)) r h
+        refine ⟨by simpa using h1, ?_⟩
+        intro j w hr
+        rcases h2 j w hr with ha | ⟨hle, hget⟩
+        · cases ha
+          exact Or.inr ⟨Nat.le_refl _, by simp⟩
+        · refine Or.inr ⟨by omega, ?_⟩
+          have : j - i = (j - (i + 1)) + 1 := by omega
+          rw [this]; simpa using hget
+    | false =>
+      simp only [hf, Bool.false_eq_true, if_false] at h ⊢
+      obtain ⟨fr, hfr, h⟩ := bind_ok_inv h
+      have hplain : (defVariantOf c enum v).fields.any Gen.Default.hasAttr = false := defFA_scan_off c enum v.fields fr hfr
+      simp only [hplain, Bool.false_eq_true, if_false]
+      obtain ⟨h1, h2⟩ := ih (i + 1) acc r h
+      refine ⟨h1, ?_⟩
+      intro j w hr
+      rcases h2 j w hr with ha | ⟨hle, hget⟩
+      · exact Or.inl ha
+      · refine Or.inr ⟨by omega, ?_⟩
+        have : j - i = (j - (i + 1)) + 1 := by omega
+        rw [this]; simpa using hget
+
+theorem default_items (it0 nw : Item) (hn : it0.trait = "Default") (hw : nw.trait = "new") (b : Bool) (its : List Item)
+    (h : (pure ([it0] ++ if b then [nw] else []) : Res (List Item)) = .ok its) :
+    (∃ it ∈ its, it.trait = "Default") ∧ ((∃ it ∈ its, it.trait = "new") ↔ b = true) := by
+  simp only [pure] at h
+  cases h
+  refine ⟨⟨it0, by simp, hn⟩, ?_⟩
+  cases b with
+  | true => exact ⟨fun _ => rfl, fun _ => ⟨nw, by simp, hw⟩⟩
+  | false =>
+    simp only [Bool.false_eq_true, if_false, List.append_nil, List.mem_singleton]
+    constructor
+    · rintro ⟨it, rfl, ht⟩
+      rw [hn] at ht
+      exact absurd ht (by decide)
+    · intro hf; cases hf
+
+/-- The conclusion of the Default end-to-end theorem. -/
+def DefaultEndToEnd (c : Ctx) (m : TraitMeta) (items : List Item) : Prop :=
+    ∃ ta, defaultTypeFromMeta { flag := true, new := true, expression := true, bound := true } m = .ok ta ∧
+      (∃ it ∈ items, it.trait = "Default") ∧ ((∃ it ∈ items, it.trait = "new") ↔ ta.new = true) ∧
+      ∀ (enum : String × Bool → Nat),
+        ∃ bd, Gen.Default.body { typeExpr := ta.expression.map enum, new := ta.new } (defType c enum) = .ok bd ∧
+          ∀ {V : Type} (ops : DefOps V),
+            Spec.default ops { typeExpr := ta.expression.map enum, new := ta.new } (defType c enum) = some (Sem.evalDefault ops bd)
+
+/-- **C08 end to end (structs and enums).** The Default handler accepted. Then the type-level attribute gave `ta`
+    (expression, `new`), a `Default` item is emitted (and `new` exactly when requested), and — for every numbering of the
+    default expressions — the behavioural generator, run on the configuration read from the same tokens (every variant's
+    marker from its own attributes, every field's expression from its own attributes), produces the body, and `T::default()`
+    is the value of the reference semantics: the type-level expression if given, else the struct / the marked-or-only
+    variant with every field set to its own expression or to its type's default. -/
+theorem default_handler_end_to_end (c : Ctx) (m : TraitMeta) (items : List Item) (hwf : InputWF c.d)
+    (hk : c.d.kind ≠ .union) (h : defaultHandler c m = .ok items) : DefaultEndToEnd c m items := by
+  unfold defaultHandler at h
+  obtain ⟨ta, hta, h⟩ := bind_ok_inv h
+  dsimp only at h
+  have fin : ∀ (its : List Item), ((∃ it ∈ its, it.trait = "Default") ∧ ((∃ it ∈ its, it.trait = "new") ↔ ta.new = true)) →
+      (∀ (enum : String × Bool → Nat),
+        ∃ bd, Gen.Default.body { typeExpr := ta.expression.map enum, new := ta.new } (defType c enum) = .ok bd) →
+      its = items → DefaultEndToEnd c m items := by
+    intro its hi hb he
+    subst he
+    refine ⟨ta, hta, hi.1, hi.2, ?_⟩
+    intro enum
+    obtain ⟨bd, hbd⟩ := hb enum
+    exact ⟨bd, hbd, fun ops => default_correct ops _ _ bd hbd⟩
+  cases hexpr : ta.expression with
+  | some e =>
+    simp only [hexpr] at h
+    obtain ⟨sr, hscan, h⟩ := bind_ok_inv h
+    refine fin items (default_items _ _ rfl rfl _ _ h) ?_ rfl
+    intro enum
+    have h2 := mapRes_ok_forall _ _ _ hscan
+    -- every variant: marker switched off was accepted, and every field was free of Default attributes
+    have hvar : ∀ v ∈ c.d.variants, (c.d.kind = .enum → ∃ a, defVariantAttr c false v = .ok a) ∧
+        ∃ r, mapRes (defFA c false false) v.fields = .ok r := by
+      intro v hv
+      obtain ⟨k, hkv⟩ := List.getElem?_of_mem hv
+      have hl : k < sr.length := by
+        rw [mapRes_length _ _ _ hscan]; exact (List.getElem?_eq_some_iff.mp hkv).1
+      obtain ⟨x, hx, hxy⟩ := forall2_getElem h2 k _ (List.getElem?_eq_getElem hl)
+      rw [hkv] at hx; cases hx
+      split at hxy
+      · rename_i hen
+        obtain ⟨a, ha, hxy⟩ := bind_ok_inv hxy
+        obtain ⟨r, hr, _⟩ := bind_ok_inv hxy
+        exact ⟨fun _ => ⟨a, ha⟩, r, hr⟩
+      · rename_i hen
+        obtain ⟨r, hr, _⟩ := bind_ok_inv hxy
+        refine ⟨fun he => ?_, r, hr⟩
+        rw [he] at hen; exact absurd rfl hen
+    simp only [hexpr, Option.map_some, defType]
+    cases hkind : c.d.kind with
+    | union => exact absurd hkind hk
+    | struct =>
+      obtain ⟨v, hv⟩ := hwf.2 (by simp [hkind])
+      obtain ⟨_, r, hr⟩ := hvar v (by simp [hv])
+      simp only [hv, List.headD_cons, Gen.Default.body]
+      have : (defVariantOf c enum v).fields.any Gen.Default.hasAttr = false := defFA_scan_off c enum v.fields r hr
+      simp only [this, Bool.false_eq_true, if_false]
+      exact ⟨_, rfl⟩
+    | enum =>
+      simp only [Gen.Default.body]
+      have : ((c.d.variants.map (defVariantOf c enum)).any fun v => v.flag || v.fields.any Gen.Default.hasAttr) = false := by
+        rw [List.any_eq_false]
+        intro w hw
+        obtain ⟨v, hv, rfl⟩ := List.mem_map.mp hw
+        obtain ⟨ha, r, hr⟩ := hvar v hv
+        obtain ⟨a, ha⟩ := ha hkind
+        have hfl : (defVariantOf c enum v).flag = false := by simp [defVariantOf, defVariantAttr_off c v a ha]
+        have hfs : (defVariantOf c enum v).fields.any Gen.Default.hasAttr = false := defFA_scan_off c enum v.fields r hr
+        simp [hfl, hfs]
+      simp only [this, Bool.false_eq_true, if_false]
+      exact ⟨_, rfl⟩
+  | none =>
+    simp only [hexpr] at h
+    cases hkind : c.d.kind with
+    | union => exact absurd hkind hk
+    | struct =>
+      simp only [hkind] at h
+      obtain ⟨fas, _, h⟩ := bind_ok_inv h
+      refine fin items (default_items _ _ rfl rfl _ _ h) ?_ rfl
+      intro enum
+      obtain ⟨v, hv⟩ := hwf.2 (by simp [hkind])
+      simp only [hexpr, Option.map_none, defType, hkind, hv, List.headD_cons, Gen.Default.body]
+      have : (defVariantOf c enum v).fields.any (·.flag) = false := defFields_noflag c enum v.fields
+      simp only [this, Bool.false_eq_true, if_false]
+      exact ⟨_, rfl⟩
+    | enum =>
+      simp only [hkind] at h
+      obtain ⟨q, hq, h⟩ := bind_ok_inv h
+      obtain ⟨k, v, fas⟩ := q
+      refine fin items (default_items _ _ rfl rfl _ _ h) ?_ rfl
+      intro enum
+      simp only [hexpr, Option.map_none, defType, hkind, Gen.Default.body]
+      unfold defaultPickVariant at hq
+      split at hq
+      · rename_i v0 hv0
+        rw [hv0]
+        obtain ⟨_, _, hq⟩ := bind_ok_inv hq
+        obtain ⟨fr, _, hq⟩ := bind_ok_inv hq
+        have : (defVariantOf c enum v0).fields.any (·.flag) = false := defFields_noflag c enum v0.fields
+        simp only [List.map_cons, List.map_nil, this, Bool.false_eq_true, if_false]
+        exact ⟨_, rfl⟩
+      · rename_i hns
+        obtain ⟨r, hr, hq⟩ := bind_ok_inv hq
+        cases r with
+        | none => cases hq
+        | some kv =>
+          obtain ⟨k', v'⟩ := kv
+          simp only at hq
+          obtain ⟨fr, _, hq⟩ := bind_ok_inv hq
+          cases hq
+          obtain ⟨h1, h2⟩ := defaultVariantLoop_variantLoop c enum c.d.variants 0 none (some (k, v)) hr
+          have hget : c.d.variants[k]? = some v := by
+            rcases h2 k v rfl with ha | ⟨_, hg⟩
+            · cases ha
+            · simpa using hg
+          have hnot : ∀ w, c.d.variants.map (defVariantOf c enum) ≠ [w] := by
+            intro w hw
+            match hvs : c.d.variants, hw with
+            | [x], _ => exact hns x hvs
+          split
+          · rename_i w hw
+            exact absurd hw (hnot w)
+          · simp only [Option.map_none, Option.map_some] at h1
+            rw [h1]
+            simp only [List.getElem?_map, hget, Option.map_some]
+            have : (defVariantOf c enum v).fields.any (·.flag) = false := defFields_noflag c enum v.fields
+            simp only [this, Bool.false_eq_true, if_false]
+            exact ⟨_, rfl⟩
 
 /-! ## Non-vacuity: a concrete definition, as syn's records, through the whole chain
 
